@@ -86,7 +86,7 @@ func TestDocExamples(t *testing.T) {
 			t.Errorf("%q: %v (%s), want %v", spec, got.Verdict, got.Why, v)
 		}
 	}
-	if Parse("* * 1-31 * *", std).Sched.DomStar != Unspecified || Parse("* * */1 * *", std).Sched.DomStar != Unspecified || Parse("* * */2 * *", std).Sched.DomStar != No || Parse("* * *,5 * *", std).Sched.DomStar != Yes {
+	if Parse("* * 1-31 * *", std).Sched.DomStar != No || Parse("* * * * sun-sat", std).Sched.DowStar != No || Parse("* * 1-15,16-31 * *", std).Sched.DomStar != No || Parse("* * */2,2-30/2 * *", std).Sched.DomStar != Unspecified || Parse("* * */1 * *", std).Sched.DomStar != Unspecified || Parse("* * */2 * *", std).Sched.DomStar != No || Parse("* * *,5 * *", std).Sched.DomStar != Yes {
 		t.Fatal("star flags")
 	}
 }
